@@ -304,6 +304,10 @@ class CounterToken(Token, FileSystemEventHandler):
         except FileNotFoundError:
             # We did not find the token file... just ignore
             pass
+        except ValueError:
+            # The token file has been created but not yet written: it will be
+            # read when the modification is notified
+            pass
         except Exception:
             logger.exception("Uncaught exception in on_modified handler")
             raise
@@ -353,6 +357,9 @@ class CounterToken(Token, FileSystemEventHandler):
                             self.cache[path.name] = tokenfile
                         except FileNotFoundError:
                             # Well, the file did not exist anymore...
+                            pass
+                        except ValueError:
+                            # Not fully written yet: wait for the next event
                             pass
         except Exception:
             logger.exception("Uncaught exception in on_modified handler")
